@@ -151,7 +151,7 @@ def s_prune(F, res):
             if guarded:
                 res.add([ok("S-PRUNE", key, w, "the insert is guarded by an is_empty() test on the map")])
             else:
-                res.add([finding("S-PRUNE", key, w, "%s re-inserts an inner map that the preceding fold may have emptied (amounts that cancel): the body then carries `policy -> {}`" % name)])
+                res.add([finding("S-PRUNE", key, w, "%s re-inserts an inner map that the preceding fold may have emptied (amounts that cancel): the body then carries `policy -> {}`" % f["path"].split("::")[-1])])
     res.count("inner-map inserts", n)
     res.floor("inner-map inserts", n, 1)
 
